@@ -84,10 +84,13 @@ def tainted_sysexdata():
 
 def data_pool():
     good = [(), [], (0,), [127], [1, 2, 3], b'\x01\x02', bytearray(b'\x7f'), range(3),
-            tuple(range(128)), (0,) * 300]
+            tuple(range(128)), (0,) * 300, [0, 127] * 700, bytes(1500)]
     bad = [5, 1.5, None, [128], [-1], [1.0], [None], [[1]], ['1'], 'abc', [1, 2, 256],
            (1, 2.0), [fractions.Fraction(1)], [1j], [2 ** 64], b'\x80', bytearray(b'\xff'),
-           object] + tainted_sysexdata()
+           object] + tainted_sysexdata() + [
+               [0] * 600 + [1.5] + [127] * 600, tuple([0] + [5] * 1100 + [fractions.Fraction(1, 2)] + [127]),
+               [0] * 2000 + [64.0] + [127], [0] * 1024 + [128], [127] * 1023 + [-1] + [0] * 10,
+               bytearray([0] * 1500 + [200])]
     unj = [True, '', {}, {1: 2}, [True]]
     return good, bad, unj
 
